@@ -42,11 +42,13 @@ Theorem C12_remove : forall w c n w',
 Proof. exact remove_clean. Qed.
 Print Assumptions C12_remove.
 
-(* stop of an active context always succeeds, whatever stop handlers and release steps raise: every live
+(* stop of an active context succeeds whatever the release steps raise (any class) and whatever the stop handlers
+   raise, as long as the handler's exception is one that the `try ... except` around stop handlers catches
+   ([all_caught]: every class in the demanded behaviour; every Exception subclass in the tree as it is): every live
    object is released exactly once, every stop handler ran, no thread / handler / socket / connection is left,
    the context is inactive, start and a second stop are usage errors, calls through any proxy fail at once *)
 Theorem C12_stop_reclaims : forall w c,
-  Inv w -> cur w = Some c -> active c = true ->
+  Inv w -> cur w = Some c -> active c = true -> all_caught w c = true ->
   exists w' c', ctx_stop c w = Ret w' /\ cur w' = Some c' /\
     (forall o, In o (live_oids (objmap c)) -> count_occ Nat.eq_dec (rel w') o = 1) /\
     rel w' = rel w ++ live_oids (objmap c) /\
@@ -59,10 +61,35 @@ Theorem C12_stop_reclaims : forall w c,
 Proof. exact stop_reclaims. Qed.
 Print Assumptions C12_stop_reclaims.
 
+(* ... in the demanded behaviour for ALL faults, of every class *)
+Theorem C12_stop_reclaims_all_faults : forall w c,
+  Inv w -> vr w = Fixed -> cur w = Some c -> active c = true ->
+  exists w' c', ctx_stop c w = Ret w' /\ cur w' = Some c' /\
+    (forall o, In o (live_oids (objmap c)) -> count_occ Nat.eq_dec (rel w') o = 1) /\
+    rel w' = rel w ++ live_oids (objmap c) /\
+    hruns w' = hruns w ++ map fst (shs c) /\
+    objmap c' = [] /\ handlers c' = [] /\ cthreads c' = [] /\
+    router c' = false /\ tcp c' = false /\ udp c' = false /\ conn c' = false /\ active c' = false /\
+    (forall f, ctx_start c' f w' = Raise EUsage w') /\
+    ctx_stop c' w' = Raise EUsage w' /\
+    (forall i, call w' i = OSkip \/ call w' i = OExc EDelivery).
+Proof. exact stop_reclaims_all_faults. Qed.
+Print Assumptions C12_stop_reclaims_all_faults.
+
+(* the tree as it is: QMI_Context.stop() catches only Exception around a stop handler; a handler raising a
+   BaseException that is not an Exception (SystemExit, KeyboardInterrupt, ...) aborts stop(): the context stays
+   active, its objects alive and unreleased, later handlers do not run *)
+Theorem C12_stop_handler_baseexception_refuted :
+  let r := run (init Direct Tree) [New; CStart FNone; Make 1 KObj true true; AddH HBase; AddH HOk; CStop] in
+  snd r = [OOk; OOk; OOk; OOk; OOk; OExc EBase] /\ rel (fst r) = [] /\ hruns (fst r) = [0] /\
+  match cur (fst r) with Some c => active c = true /\ cthreads c = [0; 1] /\ router c = true | None => False end.
+Proof. exact stop_handler_base_refuted. Qed.
+Print Assumptions C12_stop_handler_baseexception_refuted.
+
 (* a failed QMI_Context.start (TCP bind, UDP bind, port still held) in the demanded behaviour: everything
    it built is reclaimed and a NEW context can be created and started *)
 Theorem C12_failed_start : forall w c f,
-  Inv w -> vr w = Fixed -> cur w = Some c -> active c = false -> used c = false -> router c = false ->
+  Inv w -> vr w <> Current -> cur w = Some c -> active c = false -> used c = false -> router c = false ->
   start_fails f w = true ->
   exists w', ctx_start c f w = Raise EOSError w' /\
     (exists c', cur w' = Some c' /\ objmap c' = [] /\ handlers c' = [] /\ cthreads c' = [] /\
@@ -75,13 +102,13 @@ Print Assumptions C12_failed_start.
 (* the same at the qmi.start() level, demanded behaviour: after a failed qmi.start (any fault) the singleton
    is reset, no context is held, no port is held, and the next qmi.start succeeds *)
 Theorem C12_failed_start_singleton_fixed : forall w f p e w',
-  Inv w -> md w = Single -> vr w = Fixed -> reg w = false -> qstart f p w = Raise e w' ->
+  Inv w -> md w = Single -> vr w <> Current -> reg w = false -> qstart f p w = Raise e w' ->
   (reg w' = false /\ cur w' = None /\ lport w' = false) /\
   forall p', exists w'', qstart FNone p' w' = Ret w''.
 Proof. exact failed_start_singleton_fixed. Qed.
 Print Assumptions C12_failed_start_singleton_fixed.
 
-(* the tree as it is: qmi.start with the TCP port in use raises, and after that EVERY later qmi.start and
+(* the tree before the failed-start repair: qmi.start with the TCP port in use raises, and after that EVERY later qmi.start and
    qmi.stop of EVERY continuation is a usage error: the process can never start a context again *)
 Theorem C12_failed_start_singleton_refuted :
   exists o, snd (step (init Single Current) o) = OExc EOSError /\
@@ -95,7 +122,7 @@ Print Assumptions C12_failed_start_singleton_refuted.
 Example C12_example_lifecycle :
   snd (run (init Single Fixed)
         [QStart FNone true; Make 1 KObj true true; Make 1 KInst true true; Make 2 KTask false true;
-         Make 2 KTask true false; AddH true; AddH false; Call 0; Remove 1; Call 0; QStop; Call 1; QStop;
+         Make 2 KTask true false; AddH HExc; AddH HOk; Call 0; Remove 1; Call 0; QStop; Call 1; QStop;
          QStart FTcp false; QStart FNone false])
   = [OOk; OOk; OExc EDup; OExc ECtor; OOk; OOk; OOk; OVal 1; OOk; OExc EDelivery; OOk; OExc EDelivery;
      OExc ENoActive; OExc EOSError; OOk].
@@ -103,7 +130,7 @@ Proof. vm_compute. reflexivity. Qed.
 
 Example C12_example_stop_state :
   let w := fst (run (init Direct Fixed)
-                 [New; CStart FNone; Make 1 KObj true false; Make 2 KTask true false; AddH true; AddH false; CStop]) in
+                 [New; CStart FNone; Make 1 KObj true false; Make 2 KTask true false; AddH HExc; AddH HOk; CStop]) in
   rel w = [0; 1; 2] /\ hruns w = [0; 1] /\
   match cur w with Some c => objmap c = [] /\ cthreads c = [] /\ active c = false | None => False end.
 Proof. vm_compute. repeat split. Qed.
